@@ -321,7 +321,8 @@ def meaning_obs():
         return h_dz
 
     # #DIV/0! inside a sub-expression is the result of the whole formula
-    for f in ('=A1+B1/C1', '=A1/C1*B1', '=-(A1/C1)', '=(A1/C1)&B1', '=(A1/C1)=B1', '=B1<A1/C1', '=A1/C1^2'):
+    for f in ('=A1+B1/C1', '=A1/C1*B1', '=-(A1/C1)', '=(A1/C1)&B1', '=(A1/C1)=B1', '=B1<A1/C1', '=A1/C1^2',
+              '=B1*(A1/C1)', '=B1+(A1/C1)', '=B1&(A1/C1)', '=B1-B1*(A1/C1)', '=(B1-A1)*(1/C1)', '=B1^(A1/C1)'):
         m = mk({'A1': 1, 'B1': 1, 'C1': 0, 'Z1': f})
         h_dz = mk_dz(m)
         obs.append(Ob(f'c01.divzero[{f}]', h_dz, witness=[(3, 4)], timeout=30, family='c01.divzero', bounds='a, b: all ints; C1 = 0',
